@@ -8,7 +8,7 @@
     Assumptions of the model (the property is labelled partial): the test-and-insert on the lock
     table is atomic (O_CREAT|O_EXCL) and a concurrent execution is an interleaving of atomic steps. *)
 From Coq Require Import List Bool Arith.
-From Rocfl Require Import Model.Lock Proofs.LockFacts Proofs.LockSerialFacts Proofs.LockScheduleFacts.
+From Rocfl Require Import Model.Lock Proofs.LockFacts Proofs.LockSerialFacts Proofs.LockScheduleFacts Proofs.LockBracketFacts.
 Import ListNotations.
 
 (** mutual exclusion: in every reachable state at most one operation is inside its body for an object *)
@@ -99,6 +99,89 @@ Theorem C13_complete_traces_balanced :
 Proof. exact (fun oid key data oid_eqb key_eqb hash os d0 sched K =>
                 complete_traces_balanced oid key data oid_eqb key_eqb hash K os d0 sched). Qed.
 Print Assumptions C13_complete_traces_balanced.
+
+(** ONE bracket per operation.  The automaton above accepts (Acq Mut* Rel)* for one operation; the
+    model's operation is  acquire ; body ; release  exactly once, which the strict per-operation
+    automaton [one_bracket] states on traces:  Acq k ; (Mut k)* ; Rel k  and then NO further event of
+    that operation (refused: Fail k alone), k the lock key of the operation's object.
+    For every schedule and every operation i, its events are accepted and the automaton is in the phase
+    the program counter of i prescribes (not yet asked / inside its body / closed). *)
+Theorem C13_one_bracket_per_operation :
+  forall (oid key data : Type) (oid_eqb : oid -> oid -> bool) (key_eqb : key -> key -> bool) (hash : oid -> key)
+         (os : list (op oid data)) (d0 : oid -> data) (sched : list nat) i o,
+    eqb_correct key_eqb ->
+    nth_error os i = Some o ->
+    let st := run_sched oid key data oid_eqb key_eqb hash (init oid key data os d0) sched in
+    one_bracket key key_eqb (hash (op_obj o)) i (events st) = Some (phase_of data (nth_error (pcs st) i)).
+Proof. exact (fun oid key data oid_eqb key_eqb hash os d0 sched i o K =>
+                one_bracket_per_operation oid key data oid_eqb key_eqb hash K os d0 sched i o). Qed.
+Print Assumptions C13_one_bracket_per_operation.
+
+(** spelled out: an operation that returned - whatever the outcome Ok / Err / Panic of its body - took the
+    lock of its object exactly once: its events are one acquire, then only mutations of that object, then
+    the matching release, and nothing of that operation follows the release *)
+Theorem C13_returned_operation_one_bracket :
+  forall (oid key data : Type) (oid_eqb : oid -> oid -> bool) (key_eqb : key -> key -> bool) (hash : oid -> key)
+         (os : list (op oid data)) (d0 : oid -> data) (sched : list nat) i o (out : outcome),
+    eqb_correct key_eqb ->
+    nth_error os i = Some o ->
+    let st := run_sched oid key data oid_eqb key_eqb hash (init oid key data os d0) sched in
+    nth_error (pcs st) i = Some (Finished (RRet out)) ->
+    exists n, proj key i (events st)
+              = mkEv i KAcq (hash (op_obj o)) :: repeat (mkEv i KMut (hash (op_obj o))) n
+                ++ [mkEv i KRel (hash (op_obj o))].
+Proof. exact (fun oid key data oid_eqb key_eqb hash os d0 sched i o out K =>
+                returned_one_bracket oid key data oid_eqb key_eqb hash K os d0 sched i o out). Qed.
+Print Assumptions C13_returned_operation_one_bracket.
+
+(** ... in every other state of the operation as well: nothing before it asked, Acq Mut* while it is inside
+    its body, the single event Fail when it was refused *)
+Theorem C13_operation_trace_shape :
+  forall (oid key data : Type) (oid_eqb : oid -> oid -> bool) (key_eqb : key -> key -> bool) (hash : oid -> key)
+         (os : list (op oid data)) (d0 : oid -> data) (sched : list nat) i o p,
+    eqb_correct key_eqb ->
+    nth_error os i = Some o ->
+    let st := run_sched oid key data oid_eqb key_eqb hash (init oid key data os d0) sched in
+    nth_error (pcs st) i = Some p ->
+    op_shape key data i (hash (op_obj o)) p (proj key i (events st)).
+Proof. exact (fun oid key data oid_eqb key_eqb hash os d0 sched i o p K =>
+                operation_trace_shape oid key data oid_eqb key_eqb hash K os d0 sched i o p). Qed.
+Print Assumptions C13_operation_trace_shape.
+
+(** the strict automaton accepts nothing else (on ANY event list, e.g. the abstraction of a traced run of
+    the real code): closed = exactly one acquire, mutations, one release, end - or refused *)
+Theorem C13_one_bracket_language :
+  forall (key : Type) (key_eqb : key -> key -> bool) (k : key) (i : nat) (es : list (ev key)),
+    eqb_correct key_eqb ->
+    one_bracket key key_eqb k i es = Some PClosed ->
+    (exists n, proj key i es = mkEv i KAcq k :: repeat (mkEv i KMut k) n ++ [mkEv i KRel k]) \/
+    proj key i es = [mkEv i KFail k].
+Proof. exact (fun key key_eqb k i es K => one_bracket_closed_shape key key_eqb K k i es). Qed.
+Print Assumptions C13_one_bracket_language.
+
+(** the strict trace automaton of the correspondence (Corr/CheckLock.v) = lock-table automaton AND one
+    [one_bracket] per operation, no event of an unknown operation: it accepts every trace of the model, and
+    the trace of a complete run with no lock held and every operation closed *)
+Theorem C13_traces_strictly_bracketed :
+  forall (oid key data : Type) (oid_eqb : oid -> oid -> bool) (key_eqb : key -> key -> bool) (hash : oid -> key)
+         (os : list (op oid data)) (d0 : oid -> data) (sched : list nat),
+    eqb_correct key_eqb ->
+    strict_ok key key_eqb (map (fun o => hash (op_obj o)) os)
+              (events (run_sched oid key data oid_eqb key_eqb hash (init oid key data os d0) sched)) = true.
+Proof. exact (fun oid key data oid_eqb key_eqb hash os d0 sched K =>
+                traces_strict oid key data oid_eqb key_eqb hash K os d0 sched). Qed.
+Print Assumptions C13_traces_strictly_bracketed.
+
+Theorem C13_complete_traces_strictly_bracketed :
+  forall (oid key data : Type) (oid_eqb : oid -> oid -> bool) (key_eqb : key -> key -> bool) (hash : oid -> key)
+         (os : list (op oid data)) (d0 : oid -> data) (sched : list nat),
+    eqb_correct key_eqb ->
+    all_finished oid key data (run_sched oid key data oid_eqb key_eqb hash (init oid key data os d0) sched) = true ->
+    strict_done key key_eqb (map (fun o => hash (op_obj o)) os)
+                (events (run_sched oid key data oid_eqb key_eqb hash (init oid key data os d0) sched)) = true.
+Proof. exact (fun oid key data oid_eqb key_eqb hash os d0 sched K =>
+                complete_traces_strict oid key data oid_eqb key_eqb hash K os d0 sched). Qed.
+Print Assumptions C13_complete_traces_strictly_bracketed.
 
 (** a refused operation changes nothing but its own result *)
 Theorem C13_failed_acquire_changes_nothing :
@@ -265,6 +348,21 @@ Example C13_nonvacuous_interleaving :
   locks st = [] /\ acq_log st = [0; 2] /\ store st 1 = [10; 11] /\ store st 2 = [30] /\
   all_finished nat nat (list nat) st = true /\
   wb_run nat Nat.eqb [] (events st) = Some [].
+Proof. vm_compute. repeat split; reflexivity. Qed.
+
+(** the strict automaton on that run: accepted, complete; the events of operation 0 are one bracket; a
+    trace in which an operation releases and takes the lock again (two brackets, every mutation inside
+    some bracket) is accepted by the bracket automaton [wb_run] but REJECTED by the strict one *)
+Example C13_nonvacuous_strict :
+  let st := ex_run [0; 0; 2; 1; 2; 0; 2; 0] in
+  strict_done nat Nat.eqb [101; 101; 102] (events st) = true /\
+  proj nat 0 (events st) = [mkEv 0 KAcq 101; mkEv 0 KMut 101; mkEv 0 KMut 101; mkEv 0 KRel 101] /\
+  proj nat 1 (events st) = [mkEv 1 KFail 101] /\
+  one_bracket nat Nat.eqb 101 0 (events st) = Some PClosed /\
+  let two := [mkEv 0 KAcq 101; mkEv 0 KMut 101; mkEv 0 KRel 101; mkEv 0 KAcq 101; mkEv 0 KMut 101; mkEv 0 KRel 101] in
+  wb_run nat Nat.eqb [] two = Some [] /\ strict_ok nat Nat.eqb [101] two = false /\
+  one_bracket nat Nat.eqb 101 0 two = None /\
+  strict_ok nat Nat.eqb [101] [mkEv 0 KAcq 101; mkEv 0 KRel 101; mkEv 0 KMut 101] = false.
 Proof. vm_compute. repeat split; reflexivity. Qed.
 
 (** a state in the middle: operation 0 is inside its body and holds lock 101 - the hypotheses of
